@@ -7,6 +7,7 @@ content arrives in one piece; the whole-read result is additionally compared wit
 the pieces, decoded by the reader's own TextIOWrapper.
 """
 import io
+import json
 import random
 
 from .. import env, util
@@ -342,11 +343,60 @@ def run_very_long(ns, res, rng, count):
                               {'text': text, 'policy': policy, 'comment': comment, 'header': header, 'encoding': None, 'pieces': lens, 'chunk_size': cs, 'mode': 'pieces'})
 
 
+def run_js_bytes(res, tier, sample_idx, rng):
+    """The JS stream reader: every byte partition (short samples) or every one-, two-cut and byte-by-byte partition (long ones) of the multi-byte samples
+    against the same reader fed the whole content in one read."""
+    from ..js import bridge
+    node = bridge.Node.start()
+    if node is None:
+        res.notes.append('js byte-partition leg: unavailable (no node)')
+        return
+    try:
+        encoding, text = (byte_samples() + JS_EXTRA_SAMPLES)[sample_idx]
+        data = text.encode(encoding)
+        n = len(data)
+        if n <= (11 if tier == 'quick' else 15):
+            parts = [list(l) for l in enum.compositions(n)]
+        else:
+            parts = [[i, n - i] for i in range(1, n)] + [[i, j - i, n - j] for i in range(1, n) for j in range(i + 1, n)] + [[1] * n]
+            for _ in range(200 if tier == 'quick' else 5000):
+                lens, left = [], n
+                while left:
+                    c = min(left, rng.choice([1, 1, 2, 3, 4, 5]))
+                    lens.append(c)
+                    left -= c
+                parts.append(lens)
+        key = lambda o: json.dumps({'records': o['records'], 'header': o.get('header'), 'warnings': sorted(o.get('warnings') or []), 'error': o['error'] and o['error']['cls'], 'stuck': bool(o.get('stuck'))}, sort_keys=True)
+        for policy in POLICIES:
+            for comment in (None, '#'):
+                for header in (False, True):
+                    base = {'bytes_hex': data.hex(), 'encoding': 'binary' if encoding == 'latin-1' else encoding, 'delim': ',', 'policy': policy, 'has_header': header, 'comment_prefix': comment}
+                    reqs = [dict(base, chunks=[n] if n else [])] + [dict(base, chunks=p_) for p_ in parts]
+                    outs = node.call({'op': 'read_batch', 'cases': reqs})['results']
+                    whole = key(outs[0])
+                    res.distinct_disjoint += 1
+                    for p_, o in zip(parts, outs[1:]):
+                        res.evaluations += 1
+                        res.count('js_byte_partition_runs')
+                        if key(o) != whole:
+                            res.violation('js-byte-chunk-dependence', '[js stream] %s bytes %r (%s comment %r header %s) delivered as %r -> %s, in one read -> %s' % (encoding, data, policy, comment, header, p_, key(o)[:300], whole[:300]),
+                                          {'mode': 'js-bytes', 'text': text, 'policy': policy, 'comment': comment, 'header': header, 'encoding': encoding, 'pieces': p_})
+                            break
+        res.sample({'mode': 'js-bytes', 'encoding': encoding, 'text': text, 'partitions': len(parts)})
+    finally:
+        node.close()
+
+
+# further samples for the JS leg: 4-byte characters at the start, in the middle and at the end, next to each other and next to line breaks
+JS_EXTRA_SAMPLES = [('utf-8', '😀'), ('utf-8', 'a😀😀\n\U0010ffff,€é\r\n😀'), ('utf-8', '"😀\r\n😀",\U00010000\r')]
+
+
 def plan(tier, seed):
     k = NSHARDS[tier]
     specs = [{'kind': 'exhaustive', 'k': k, 'i': i} for i in range(k)]
     specs += [{'kind': 'bytes', 'sample': i, 'policies': [p]} for i in range(len(byte_samples())) for p in POLICIES]
     specs += [{'kind': 'long', 'i': i, 'n': 300 if tier == 'quick' else 3000} for i in range(4)]
+    specs += [{'kind': 'js-bytes', 'sample': i} for i in range(len(byte_samples()) + len(JS_EXTRA_SAMPLES))]
     specs += [{'kind': 'dialects', 'k': 8, 'i': i} for i in range(8)]
     return specs
 
@@ -385,6 +435,8 @@ def run_shard(spec, res):
         res.sample({'mode': 'dialects', 'dialects': EXTRA_DIALECTS, 'max_len': maxlen})
     elif spec['kind'] == 'bytes':
         run_bytes(ns, res, tier, spec['sample'], spec['policies'])
+    elif spec['kind'] == 'js-bytes':
+        run_js_bytes(res, tier, spec['sample'], rng)
     elif spec['kind'] == 'long':
         run_random_long(ns, res, rng, spec['n'])
         run_very_long(ns, res, rng, 6 if tier == 'quick' else 40)
@@ -392,9 +444,9 @@ def run_shard(spec, res):
 
 def summarize(tier, seed, m):
     return {
-        'rule': 'every text of length <= %d over {a, quote, comma, LF, CR, #, space} x all 2^(n-1) partitions into successive reads (chunk_size n+1) x policies {simple, quoted, quoted_rfc} x comment prefix {none, #} x header {off, on}; length %d with header off (quick tier: 4 of the 6 policy x comment configurations at that length); for each text also chunk_size 1..n on the undivided text; every byte partition of %d multi-byte UTF-8 / latin-1 / BOM samples through a RawIOBase; random longer texts with random partitions and chunk sizes (text and byte level); lines and quoted_rfc records of 1100-6000 characters delivered one, two or 1-3 characters per read (thousands of reads per line) at chunk sizes 7 / 512 / 1024 / 4096; the same exhaustive differential up to 5 / 6 characters for 7 further dialects (semicolon, space + whitespace policy, space + quoted, monocolumn, multi-character delimiter with quoted_rfc and simple, tab) with single- and multi-character comment prefixes. Each whole read is also compared with the reference reader. distinct_nontrivial = (text, configuration) pairs whose text contains a line break or a quote.' % (FULL_LEN[tier], EXTRA_LEN[tier], len(byte_samples())),
+        'rule': 'every text of length <= %d over {a, quote, comma, LF, CR, #, space} x all 2^(n-1) partitions into successive reads (chunk_size n+1) x policies {simple, quoted, quoted_rfc} x comment prefix {none, #} x header {off, on}; length %d with header off (quick tier: 4 of the 6 policy x comment configurations at that length); for each text also chunk_size 1..n on the undivided text; every byte partition of %d multi-byte UTF-8 / latin-1 / BOM samples through a RawIOBase; the same samples (+ three with 4-byte characters at every position) through the JS stream reader, every partition (short) or every one- and two-cut, byte-by-byte and random partition (long) against the whole content in one read; random longer texts with random partitions and chunk sizes (text and byte level); lines and quoted_rfc records of 1100-6000 characters delivered one, two or 1-3 characters per read (thousands of reads per line) at chunk sizes 7 / 512 / 1024 / 4096; the same exhaustive differential up to 5 / 6 characters for 7 further dialects (semicolon, space + whitespace policy, space + quoted, monocolumn, multi-character delimiter with quoted_rfc and simple, tab) with single- and multi-character comment prefixes. Each whole read is also compared with the reference reader. distinct_nontrivial = (text, configuration) pairs whose text contains a line break or a quote.' % (FULL_LEN[tier], EXTRA_LEN[tier], len(byte_samples())),
         'exhaustive': True,
-        'required': ['partition_runs', 'byte_partition_runs', 'byte_partition_runs_buffered_reader', 'reference_comparisons', 'chunk_size_runs', 'dialect_partition_runs', 'dialect_reference_comparisons', 'very_long_line_runs'],
+        'required': ['partition_runs', 'js_byte_partition_runs', 'byte_partition_runs', 'byte_partition_runs_buffered_reader', 'reference_comparisons', 'chunk_size_runs', 'dialect_partition_runs', 'dialect_reference_comparisons', 'very_long_line_runs'],
         'assumptions': ['all delivery sequences a stream can produce are covered by enumerating partitions under a large chunk_size (a read(k) request returns min(piece, k)) plus the chunk-size sweep',
                         'rv.model.refcsv.read_text states the line-ending / comment / multi-line / BOM rules'],
     }
